@@ -1,5 +1,6 @@
 """C16 — the state dump shows the true machine state, completely and parseably."""
 
+from props import C19
 from props.common_prog import judge_prog
 
 THEOREM_MODULES = ["Hcl.Theorems.C16", "Hcl.Theorems.C16ReadBack", "Hcl.Tie.Banks", "Hcl.Tie.PinsDump", "Hcl.Proofs.NamesAreIdentifiers", "Hcl.Theorems.FromText"]
@@ -54,4 +55,6 @@ def streams(tier, seed):
     return [{"name": "dump", "stream": "dump", "count": 1500 if q else 60000, "judge": judge},
             # "every memory byte that has been loaded or written": the memory after every cycle of programs that store (also
             # zeros, also to never-used addresses) is the model's, byte for byte - what the dump then prints is covered above
-            {"name": "prog-memory", "stream": "prog", "count": 200 if q else 8000, "extra": ("memory",), "judge": judge_prog}]
+            {"name": "prog-memory", "stream": "prog", "count": 200 if q else 8000, "extra": ("memory",), "judge": judge_prog},
+            # the same through FILES and the command line (accepted, rejected, big, not UTF-8, bare-CR, empty and malformed images, -q/-d/-t with and without TIMEOUT): the real binary, as in C19
+            {"name": "cli", "stream": "cli", "count": 300 if q else 8000, "pygen": C19.pygen, "judge": C19.judge}]
